@@ -14,6 +14,7 @@ import (
 	"io/fs"
 	"os"
 	"path/filepath"
+	"regexp"
 	"runtime"
 	"runtime/debug"
 	"sort"
@@ -679,6 +680,105 @@ func probeName(path string) (obs string) {
 	return dv.Format.Name
 }
 
+// types <path> <format> <f|n> <seed> <mod> <dir> <max cases>: type-string substitution. The 4-character string literals
+// of the Go sources below format/<dir> (box, chunk, atom, brand … names: `case "trun":`, map keys, …) are
+// read from the repository under test at run time; at every offset of the unchanged file where one of them
+// occurs (at most 300 places) the 4 bytes are replaced by every other one; sampled 1/mod, and thinner if
+// places x literals / mod would exceed <max cases>.
+var typeLitRE = regexp.MustCompile(`"([^"\\]{4})"`)
+
+var typeTokCache = map[string][]string{}
+
+func typeTokens(dir string) []string {
+	if t, ok := typeTokCache[dir]; ok {
+		return t
+	}
+	set := map[string]bool{}
+	_ = filepath.Walk(filepath.Join(repoDir(), "format", dir), func(p string, info os.FileInfo, err error) error {
+		if err != nil || info.IsDir() || !strings.HasSuffix(p, ".go") || strings.HasSuffix(p, "_test.go") {
+			return nil
+		}
+		b, err := os.ReadFile(p)
+		if err != nil {
+			return nil
+		}
+		for _, m := range typeLitRE.FindAllSubmatch(b, -1) {
+			if len(m[1]) == 4 { // 4 bytes, not 4 runes
+				set[string(m[1])] = true
+			}
+		}
+		return nil
+	})
+	var toks []string
+	for t := range set {
+		toks = append(toks, t)
+	}
+	sort.Strings(toks)
+	typeTokCache[dir] = toks
+	return toks
+}
+
+func runTypes(st *wstate, jobID string, from int, single bool, text string) {
+	ws := strings.Fields(text)
+	fail := func(why string) {
+		st.mu.Lock()
+		fmt.Fprintf(st.w, "C\t%s\tbadcase:%s\n", text, why)
+		st.mu.Unlock()
+	}
+	if len(ws) != 8 || (ws[3] != "f" && ws[3] != "n") || strings.Contains(ws[6], "..") || strings.HasPrefix(ws[6], "/") {
+		fail("parse")
+		return
+	}
+	seed, e1 := strconv.ParseUint(ws[4], 10, 64)
+	mod, e2 := strconv.Atoi(ws[5])
+	maxCases, e3 := strconv.Atoi(ws[7])
+	if e1 != nil || e2 != nil || e3 != nil || mod < 1 || maxCases < 1 {
+		fail("parse")
+		return
+	}
+	base, err := loadBase(ws[1])
+	if err != nil {
+		fail("read")
+		return
+	}
+	g, err := groupFor(ws[2])
+	if err != nil {
+		fail("format")
+		return
+	}
+	force := ws[3] == "f"
+	toks := typeTokens(ws[6])
+	isTok := map[string]bool{}
+	for _, t := range toks {
+		isTok[t] = true
+	}
+	var places []int
+	for off := 0; off+4 <= len(base) && len(places) < 300; off++ {
+		if isTok[string(base[off:off+4])] {
+			places = append(places, off)
+		}
+	}
+	if total := len(places) * len(toks); total/mod > maxCases {
+		mod = (total + maxCases - 1) / maxCases
+	}
+	idx := 0
+	for _, off := range places {
+		for _, t := range toks {
+			if t == string(base[off:off+4]) {
+				continue
+			}
+			m := fmt.Sprintf("y%d:%s", off, hex.EncodeToString([]byte(t)))
+			if !selected(seed, mod, ws[1], ws[2], force, m) {
+				continue
+			}
+			if idx >= from {
+				runOneOfMany(st, jobID, idx, single, base, ws[1], m, ws[2], g, force, seed)
+			}
+			idx++
+		}
+	}
+}
+
 func runJob(st *wstate, jobID string, from int, single bool, text string) {
 	if strings.HasPrefix(text, "probe ") {
 		if from > 0 {
@@ -695,6 +795,10 @@ func runJob(st *wstate, jobID string, from int, single bool, text string) {
 	}
 	if strings.HasPrefix(text, "fields ") {
 		runFields(st, jobID, from, single, text)
+		return
+	}
+	if strings.HasPrefix(text, "types ") {
+		runTypes(st, jobID, from, single, text)
 		return
 	}
 	if !strings.HasPrefix(text, "batch ") {
